@@ -26,6 +26,7 @@ type Feat struct {
 	Funcs, Slices, Strings, Switch, ForRange, For3, FileOps, AppCalls, Input, MultiRet, Panic, Comments bool
 	MaxTop, MaxBody, MaxDepth, MaxExpr, MaxFuncs int
 	PublicFuncs                              bool // generate exported (capitalised) functions and globals
+	AdvNames                                 bool // identifiers from the adversarial pool (collision families, case twins, helper look-alikes, shell words)
 	Tiny                                     bool // one or two statements only
 	NoStrLit                                 bool // sparse programs: string values only from variables, itoa, defaults — no string literal anywhere
 	NamePool                                 bool // draw function names from a small shared pool (different programs then define the same names in different orders)
@@ -36,7 +37,7 @@ func RandomFeat(r *Rng) Feat {
 	f := Feat{
 		Funcs: r.Chance(75), Slices: r.Chance(55), Strings: r.Chance(75), Switch: r.Chance(40),
 		ForRange: r.Chance(40), For3: r.Chance(60), FileOps: r.Chance(30), AppCalls: r.Chance(25),
-		Input: r.Chance(12), MultiRet: r.Chance(40), Panic: r.Chance(20), Comments: r.Chance(30), NoStrLit: r.Chance(12),
+		Input: r.Chance(12), MultiRet: r.Chance(40), Panic: r.Chance(20), Comments: r.Chance(30), NoStrLit: r.Chance(12), AdvNames: r.Chance(30),
 		MaxTop: r.Range(1, 8), MaxBody: r.Range(1, 4), MaxDepth: r.Range(1, 3), MaxExpr: r.Range(1, 3), MaxFuncs: r.Range(0, 4),
 	}
 	if r.Chance(20) {
@@ -85,12 +86,116 @@ type pgen struct {
 	funcs  []FuncSig // callable from here (qualified names for imports)
 	indent int
 	swDepth int // nesting depth of switch statements at the point of emission
+	used    map[string]bool
+	usedList []string
+	theme   []string
 	curRets []string // return types of the function being generated (nil at top level)
 	inFn    bool
 }
 
+// AdvNames are identifiers chosen to provoke name handling in the emitters:
+// families that collide once a prefix and a name are glued together
+// (log + file_path / log_file + path), names that differ only in case, names
+// that look like the emitters' own helper variables, labels and counters, and
+// words that mean something to bash or cmd.exe. None is a TypeShell keyword.
+var AdvNames = []string{
+	"log", "log_file", "file_path", "path", "file", "log_file_path", "a_b", "a", "b_c", "a_b_c", "b", "c", "x_", "_x", "x__y", "y", "x",
+	"index", "iNDEX", "inDex", "value", "vALUE", "valuE", "data", "dATA",
+	"_h0", "_h1", "_h2", "_rv0", "_rv1", "_dvc", "_ret", "_i", "_l", "_c", "_n", "_v", "_fv0", "_sah", "_sch", "_ssh", "_dv1", "f1_x", "f2__h0", "f1__h0", "_e0", "_f0", "_i0", "_ach", "_frh",
+	"done", "fi", "then", "esac", "echo", "test", "exit", "local", "eval", "set", "shift", "unset", "wait", "cat", "printf",
+	"pATH", "iFS", "hOME", "pWD", "rANDOM", "errorlevel", "cd", "date", "time", "random", "cmdcmdline", "goto", "call", "rem", "nul", "con", "lF",
+	"x1", "x01", "a1b2", "o0", "l1",
+}
+
+var tshKeywords = map[string]bool{"import": true, "var": true, "func": true, "return": true, "if": true, "else": true, "switch": true, "case": true, "default": true,
+	"for": true, "range": true, "break": true, "continue": true, "nil": true, "len": true, "print": true, "input": true, "copy": true, "itoa": true, "exists": true,
+	"read": true, "write": true, "panic": true, "bool": true, "int": true, "string": true, "error": true, "true": true, "false": true}
+
+// DeriveName makes a near-duplicate of one of the names already in use: the
+// same name with the case of one inner letter flipped, or two names glued
+// together with an underscore (so that prefix+name concatenations of different
+// pairs coincide: log + file_path / log_file + path), or one name split at an
+// underscore. Returns "" if nothing suitable comes out.
+func DeriveName(r *Rng, used []string) string {
+	if len(used) == 0 {
+		return ""
+	}
+	e := used[r.Intn(len(used))]
+	o := used[r.Intn(len(used))]
+	var n string
+	switch r.Intn(6) {
+	case 0, 1: // flip the case of one inner letter
+		if len(e) < 2 {
+			return ""
+		}
+		i := 1 + r.Intn(len(e)-1)
+		b := []byte(e)
+		switch {
+		case b[i] >= 'a' && b[i] <= 'z':
+			b[i] -= 32
+		case b[i] >= 'A' && b[i] <= 'Z':
+			b[i] += 32
+		default:
+			return ""
+		}
+		n = string(b)
+	case 2:
+		n = e + "_" + o
+	case 3:
+		n = e + "_" + r.Pick([]string{"file", "path", "x", "1", "h0"})
+	case 4: // split at an underscore
+		if i := strings.Index(e, "_"); i > 0 && i < len(e)-1 {
+			if r.Chance(50) {
+				n = e[:i]
+			} else {
+				n = e[i+1:]
+			}
+		}
+	default:
+		n = e + o
+	}
+	if n == "" || tshKeywords[n] || strings.HasPrefix(n, "true") || strings.HasPrefix(n, "false") || len(n) > 40 {
+		return ""
+	}
+	if c := n[0]; !(c == '_' || c >= 'a' && c <= 'z') {
+		return ""
+	}
+	return n
+}
+
 func (g *pgen) fresh(prefix string) string {
 	g.n++
+	if g.f.AdvNames && prefix != "F" && prefix != "V" && g.r.Chance(70) {
+		if g.used == nil {
+			g.used = map[string]bool{}
+		}
+		if len(g.usedList) > 0 && g.r.Chance(45) {
+			if n := DeriveName(g.r, g.usedList); n != "" && !g.used[n] {
+				g.used[n] = true
+				g.usedList = append(g.usedList, n)
+				return n
+			}
+		}
+		if g.theme == nil {
+			// one theme per program, so that related names meet in the same file
+			themes := [][]string{
+				{"log", "log_file", "file_path", "path", "file", "log_file_path", "a_b", "a", "b_c", "a_b_c", "b", "c", "x_", "_x", "x__y", "y", "x"},
+				{"index", "iNDEX", "inDex", "value", "vALUE", "valuE", "data", "dATA", "x", "xX"},
+				{"_h0", "_h1", "_h2", "_rv0", "_rv1", "_dvc", "_ret", "_i", "_l", "_c", "_n", "_v", "_fv0", "_sah", "_sch", "_ssh", "_dv1", "f1_x", "f2__h0", "f1__h0", "_e0", "_f0", "_i0", "_ach", "_frh"},
+				{"done", "fi", "then", "esac", "echo", "test", "exit", "local", "eval", "set", "shift", "unset", "wait", "cat", "printf", "pATH", "iFS", "hOME", "pWD", "rANDOM", "errorlevel", "cd", "date", "time", "random", "goto", "call", "rem", "nul", "con", "lF"},
+				AdvNames,
+			}
+			g.theme = themes[g.r.Intn(len(themes))]
+		}
+		for try := 0; try < 8; try++ {
+			n := g.r.Pick(g.theme)
+			if !g.used[n] {
+				g.used[n] = true
+				g.usedList = append(g.usedList, n)
+				return n
+			}
+		}
+	}
 	return fmt.Sprintf("%s%s%d", prefix, g.tag, g.n)
 }
 
